@@ -147,6 +147,11 @@ def make_input(r, kind):
             return text[:i] + '(' + text[i:]
         if c < 0.7:
             return ''
+        if c < 0.75:
+            # no s-expression at all, but not everything can go
+            return r.choice(['keep-me "lit" 42\n; c\n',
+                             '; a comment keep-me\nkeep-me\n|q s| :kw\n',
+                             '"only" "literals" keep-me'])
         if c < 0.8:
             return '; only a comment\n; another\n'
         if c < 0.9:
@@ -500,6 +505,8 @@ def shard(args):
             text = make_input(r, kind)
             fam = r.choice([['all'], ['all'], ['has'], ['ntok'], ['count'],
                             ['hash']])
+            if 'keep-me' in text:
+                rules = realrun.simple_spec('has:keep-me')
             if kind == 'deep':
                 # (peeling thousands of levels one by one would only take
                 # time: commands that let whole commands go)
